@@ -290,6 +290,18 @@ impl<M: EncMode + 'static> Obj for BlkEnc<M> {
                     None => IoOut::err(buf),
                 }
             }
+            ("padded", Some(j)) if inout && j.len() >= M::BlockSize::USIZE * (inp.len() / M::BlockSize::USIZE + 1) => {
+                // the allocating variant (cannot fail for lack of room, so only used when there is room)
+                let v = m.encrypt_padded_vec::<Pkcs7>(inp);
+                let n = v.len();
+                let mut out = j.to_vec();
+                out[..n].copy_from_slice(&v);
+                IoOut {
+                    res: Res::Ok,
+                    out,
+                    outlen: n,
+                }
+            }
             ("padded", Some(j)) => {
                 let mut out = j.to_vec();
                 let r = m.encrypt_padded_b2b::<Pkcs7>(inp, &mut out).map(|s| s.len()).ok();
@@ -439,6 +451,21 @@ impl<M: DecMode + 'static> Obj for BlkDec<M> {
                         outlen: n,
                     },
                     None => IoOut::err(buf),
+                }
+            }
+            ("padded", Some(j)) if inout && j.len() >= inp.len() => {
+                let mut out = j.to_vec();
+                match m.decrypt_padded_vec::<Pkcs7>(inp) {
+                    Ok(v) => {
+                        let n = v.len();
+                        out[..n].copy_from_slice(&v);
+                        IoOut {
+                            res: Res::Ok,
+                            out,
+                            outlen: n,
+                        }
+                    }
+                    Err(_) => IoOut::err(out),
                 }
             }
             ("padded", Some(j)) => {
